@@ -423,6 +423,13 @@ func c01Shrink(c c01Case, kind string, reps int) (c01Case, c01Verdict) {
 			if budget <= 0 {
 				break
 			}
+			// past the shard's time budget: report the case as far as it has been
+			// reduced (the run is exhaustive=false anyway) instead of running into
+			// the process timeout of the driver
+			if c01ShrinkExpired != nil && c01ShrinkExpired() {
+				budget = 0
+				break
+			}
 			if !c01Renderable(d) {
 				continue
 			}
@@ -444,6 +451,9 @@ func c01Shrink(c c01Case, kind string, reps int) (c01Case, c01Verdict) {
 }
 
 var c01ShrinkMemo = map[string]c01Verdict{}
+
+// set by the entry point to the shard's budget clock (nil in replay mode)
+var c01ShrinkExpired func() bool
 
 func c01Renderable(c c01Case) (ok bool) {
 	defer func() {
@@ -597,6 +607,7 @@ func TestVerif_C01(t *testing.T) {
 		return
 	}
 
+	c01ShrinkExpired = p.Expired
 	reps := 6
 	idx := 0
 	distinctSrc := int64(0)
@@ -633,6 +644,9 @@ func TestVerif_C01(t *testing.T) {
 			m, mv := c01Shrink(c, v.Kind, reps)
 			if mv.Kind != v.Kind {
 				m, mv = c, v
+			}
+			if p.Expired() {
+				res.Exhaustive = false // the reduction above may have been cut short
 			}
 			res.Violate(c01Key(mv.Kind, m), mv.Desc, c01Replay{Kind: mv.Kind, Case: m, Source: c01Source(m.Prog), Orig: c01Source(c.Prog) + c01Inputs(c)})
 		}
